@@ -52,3 +52,28 @@ package file
 //@ ensures negative-target-is-error: seekTarget(whence, offset, old(s.offset), flen(s.shardNodeFile)) < 0 ==> err != nil && s.offset == old(s.offset) && s.rdr == old(s.rdr)
 //@ ensures lands-on-target: seekTarget(whence, offset, old(s.offset), flen(s.shardNodeFile)) >= 0 ==> err == nil && result == seekTarget(whence, offset, old(s.offset), flen(s.shardNodeFile)) && s.offset == result && s.rdr == nil
 //@ assigns s.offset, s.rdr, file.shardNodeFile.metadata, file.shardNodeFile.unpackLk
+
+// ---------------------------------------------------------------------------------------------
+// C14: the node exposed as the substrate of a reified file is the node that was reified.
+//@ props C14
+
+//@ spec def fileSubstrate(r Ref) Ref = ite(typeis(r, "*file.singleNodeFile"), ite(r.(*file.singleNodeFile).substrate != nil, r.(*file.singleNodeFile).substrate, r.(*file.singleNodeFile).Node), r.(*file.shardNodeFile).substrate)
+
+//@ func (*file.singleNodeFile).Substrate
+//@ ensures substrate-is-original: result == fileSubstrate(f)
+//@ assigns nothing
+
+//@ func (*file.shardNodeFile).Substrate
+//@ ensures substrate-is-original: result == s.substrate
+//@ assigns nothing
+
+//@ func file.newWrappedNode
+//@ ensures err == nil ==> result != nil && fresh(result) && typeis(result, "*file.singleNodeFile") && fileSubstrate(result) == substrate
+//@ ensures err != nil ==> result == nil
+//@ assigns nothing
+
+//@ func file.NewUnixFSFile
+//@ requires substrate != nil
+//@ ensures substrate-preserved: err == nil ==> result != nil && (typeis(result, "*file.singleNodeFile") || typeis(result, "*file.shardNodeFile")) && fileSubstrate(result) == substrate
+//@ ensures err != nil ==> result == nil
+//@ assigns nothing
